@@ -1,6 +1,7 @@
 import Ecal.Model.Prims
 import Ecal.Lemmas.C06Guards
 import Ecal.Lemmas.C06EvalSites
+import Ecal.Lemmas.C06PrimsTie
 import Ecal.Model.Eval
 import Ecal.Lemmas.C06NoPanic
 import Ecal.Lemmas.C06FragB
@@ -246,6 +247,21 @@ theorem builtin_total (name : String) (args : List PVal) (hn : ∀ a ∈ args, a
   · exact rangeFunc_total _ hn
   · exact engine_sites_guarded.1 _
   · exact typeFunc_total _
+
+open Ecal.Lemmas.C06PrimsTie Ecal.Ev in
+/-- **The Prims transcriptions of `len`, `del`, `add` are tied to the evaluator model.** For every argument vector
+    (any length, any kinds) and every heap, `Prims.lenFunc / delFunc / addFunc` on the abstraction of the arguments
+    (`absV`: kind, list length, map size, `int(x)`) and the evaluator's `lenB / delB / addB` — the functions the driver
+    runs — end in the same class (value / error value), unless the evaluator model leaves itself (`unsupported` or
+    fuel: a string / opaque / NaN / ±9e18 / non-integral index, a map key its printer does not cover). So for these
+    three `builtin_total` is a statement about the compared model's argument checks. Still transcription-only (no
+    theorem ties them to `Ecal.Ev`): `concat`, `range`, `raise`, `type` in `Prims.builtin`, and the two engine
+    transcriptions `sinkAttrSite`, `stateKeySite` (the engine is not in the evaluator model). -/
+theorem prims_builtins_agree_with_ev :
+    (∀ (args : List Val) (s : St), Agree ((lenB args).run.run s).1 (lenFunc (args.map (absV s)))) ∧
+    (∀ (args : List Val) (s : St), Agree ((delB args).run.run s).1 (delFunc (args.map (absV s)))) ∧
+    (∀ (args : List Val) (s : St), Agree ((addB args).run.run s).1 (addFunc (args.map (absV s)))) :=
+  ⟨len_agree, del_agree, add_agree⟩
 
 /-- non-vacuity: the hypotheses hold for concrete vectors (also a negative fraction: int(-0.5) = int(0.5) = 0),
     and the builtins do distinguish errors from values -/
